@@ -10,6 +10,7 @@ from harness.scriptrng import ScriptRng, ApproxMath, AssumptionFailed, ScriptExh
 
 RC = importlib.import_module("kappadata.transforms.kd_random_crop")
 RRC = importlib.import_module("kappadata.transforms.kd_random_resized_crop")
+SIMPLE = importlib.import_module("kappadata.transforms.kd_simple_random_crop")
 RE = importlib.import_module("kappadata.transforms.kd_random_erasing")
 SRC = importlib.import_module("kappadata.transforms.semseg.kd_semseg_random_crop")
 SPAD = importlib.import_module("kappadata.transforms.semseg.kd_semseg_pad")
@@ -25,6 +26,8 @@ ENCODED = [
     "kappadata.transforms.kd_random_crop:KDRandomCrop.__call__",
     "kappadata.transforms.kd_random_crop:KDRandomCrop._pad_image",
     "kappadata.transforms.kd_random_crop:KDRandomCrop.get_params",
+    "kappadata.transforms.kd_simple_random_crop:KDSimpleRandomCrop.__call__",
+    "kappadata.transforms.kd_simple_random_crop:KDSimpleRandomCrop.set_rng",
     "kappadata.transforms.kd_random_resized_crop:KDRandomResizedCrop.__call__",
     "kappadata.transforms.kd_random_resized_crop:KDRandomResizedCrop.get_params",
     "kappadata.transforms.kd_random_erasing:KDRandomErasing.forward",
@@ -123,6 +126,39 @@ def body_random_crop(cfg, W, H, th, tw, pad_if_needed, d0, d1):
         return fail("pad_if_needed did not pad up to the target size")
     if not in_bounds(top, left, h, w, PW, PH):
         return fail("crop outside the (padded) image")
+    if (h, w) != (th, tw) or (out.h, out.w) != (th, tw):
+        return fail("output size differs from the requested size")
+    if ctx.get("random_crop") != dict(i=top, j=left, h=h, w=w):
+        return fail("context does not reproduce the applied crop")
+    return True
+
+
+def body_simple_crop(cfg, W, H, th, tw, p, d0, d1):
+    """KDSimpleRandomCrop = resize to the target, pad by p on every side, crop the target out of the padded image"""
+    try:
+        t = SIMPLE.KDSimpleRandomCrop(size=(th, tw), padding=p)
+        t.set_rng(ScriptRng(ints=[d0, d1]))
+        # the torchvision Resize module is a pixel kernel: replaced by the size-only stand-in (exact (h, w) target given as a pair)
+        t.resize = lambda x: k_resize(x, (th, tw))
+        log = []
+        ctx = {}
+        with patched(RC, get_image_size=k_size, pad=k_pad, crop=k_crop):
+            out = t(Img(W, H, log), ctx)
+    except (AssumptionFailed, ScriptExhausted):
+        return True
+    except Exception as e:
+        return fail("exception " + type(e).__name__)
+    pads = [e for e in log if e[0] == "pad"]
+    crops = [e for e in log if e[0] == "crop"]
+    if len(pads) != 1 or pads[0][2] != (p, p, p, p):
+        return fail("configured padding not applied exactly once on all four sides")
+    if len(crops) != 1:
+        return fail("crop kernel not applied exactly once")
+    (top, left, h, w), (PW, PH) = crops[0][2], crops[0][3]
+    if (PW, PH) != (tw + 2 * p, th + 2 * p):
+        return fail("crop taken from something else than the resized and padded image")
+    if not in_bounds(top, left, h, w, PW, PH):
+        return fail("crop outside the padded image")
     if (h, w) != (th, tw) or (out.h, out.w) != (th, tw):
         return fail("output size differs from the requested size")
     if ctx.get("random_crop") != dict(i=top, j=left, h=h, w=w):
@@ -285,6 +321,10 @@ def conditions(tier, rng):
                       params=[("W", "int"), ("H", "int"), ("th", "int"), ("tw", "int"), ("pad_if_needed", "bool"), ("d0", "int"), ("d1", "int")],
                       pre=["W >= 1", "H >= 1", "th >= 1", "tw >= 1", "pad_if_needed or (H + 1 >= th and W + 1 >= tw)"], timeout=to, group="random-crop", cost=5,
                       bounds="image and target sizes unbounded (domain in which the error message is not formatted: the f-string would realise the sizes), both draws symbolic"))
+    conds.append(Cond(name="simple-random-crop", harness=H, body="body_simple_crop", cfg=None,
+                      params=[("W", "int"), ("H", "int"), ("th", "int"), ("tw", "int"), ("p", "int"), ("d0", "int"), ("d1", "int")],
+                      pre=["W >= 1", "H >= 1", "th >= 1", "tw >= 1", "p >= 0"], timeout=to, group="random-crop", cost=5,
+                      bounds="image size, target size and padding unbounded, both draws symbolic; torchvision Resize replaced by the size-only stand-in"))
     for cfg in (((0.5, 1.0), (1.0, 1.0), (5, 5)), ((0.2, 1.0), (0.5, 2.0), (4, 6))):
         conds.append(Cond(name=f"resized-crop[scale={cfg[0]},ratio=({cfg[1][0]:.2f},{cfg[1][1]:.2f})]", harness=H, body="body_resized_crop", cfg=cfg,
                           params=[("W", "int"), ("H", "int")] + [(f"i{k}", "int") for k in range(2)] + [(f"f{k}", "float") for k in range(5)],
